@@ -281,92 +281,44 @@ namespace smt
 
     SMT_EXPORT std::pair<inf_rational, inf_rational> rdl_theory::bounds(const lin &l) const
     {
-        inf_rational c_lb;
-        inf_rational c_ub;
+        // the image of the interval [lb, ub] through c * x + k (c != 0)..
+        const auto image = [](const inf_rational &lb, const inf_rational &ub, const rational &c, const rational &k)
+        { return is_positive(c) ? std::make_pair(lb * c + k, ub * c + k) : std::make_pair(ub * c + k, lb * c + k); };
 
         switch (l.vars.size())
         {
         case 0:
-            c_lb += l.known_term;
-            c_ub += l.known_term;
-            break;
+            return std::make_pair(inf_rational(l.known_term), inf_rational(l.known_term));
         case 1:
-        {
-            auto it = l.vars.cbegin();
-            c_lb += lb(it->first) * it->second + l.known_term;
-            c_ub += ub(it->first) * it->second + l.known_term;
-            break;
+        { // c * x + k..
+            const auto [v, c] = *l.vars.cbegin();
+            const auto [v_lb, v_ub] = bounds(v);
+            return image(v_lb, v_ub, c, l.known_term);
         }
         case 2:
-        {
-            const auto expr = l / l.vars.cbegin()->second;
-            auto it = expr.vars.cbegin();
+        { // c * (x - y) + k..
+            auto it = l.vars.cbegin();
             const auto [v0, c0] = *it++;
-            assert(c0 == rational::ONE);
             const auto [v1, c1] = *it;
-            if (c1 != -rational::ONE)
+            if (c0 != -c1)
                 throw std::invalid_argument("not a valid real difference logic expression..");
-            const auto dist = distance(v0, v1);
-            c_lb += dist.first + expr.known_term;
-            c_ub += dist.second + expr.known_term;
-            break;
+            const auto [d_lb, d_ub] = distance(v1, v0); // the bounds of v0 - v1..
+            return image(d_lb, d_ub, c0, l.known_term);
         }
         default:
             throw std::invalid_argument("not a valid real difference logic expression..");
         }
-        return std::make_pair(c_lb, c_ub);
     }
 
-    SMT_EXPORT std::pair<inf_rational, inf_rational> rdl_theory::distance(const lin &from, const lin &to) const
-    {
-        lin expr = from - to;
-        switch (expr.vars.size())
-        {
-        case 0:
-            return std::make_pair(inf_rational(expr.known_term), inf_rational(expr.known_term));
-        case 1:
-        {
-            expr = expr / expr.vars.cbegin()->second;
-            return distance(expr.vars.cbegin()->first, 0);
-        }
-        case 2:
-        {
-            expr = expr / expr.vars.cbegin()->second;
-            auto it = expr.vars.cbegin();
-            const auto [v0, c0] = *it++;
-            assert(c0 == rational::ONE);
-            const auto [v1, c1] = *it;
-            if (c1 != -rational::ONE)
-                throw std::invalid_argument("not a valid real difference logic constraint..");
-            return distance(v0, v1);
-        }
-        default:
-            throw std::invalid_argument("not a valid real difference logic constraint..");
-        }
-    }
+    SMT_EXPORT std::pair<inf_rational, inf_rational> rdl_theory::distance(const lin &from, const lin &to) const { return bounds(to - from); }
 
     SMT_EXPORT bool rdl_theory::equates(const lin &l0, const lin &l1) const
     {
-        if (l0.vars.empty() && l1.vars.empty())
-            return l0.known_term == l1.known_term;
-        else if (l0.vars.empty() && l1.vars.size() == 1)
-        {
-            const auto [lb, ub] = bounds(l1);
-            return lb <= l0.known_term && ub >= l0.known_term;
-        }
-        else if (l0.vars.size() == 1 && l1.vars.empty())
-        {
-            const auto [lb, ub] = bounds(l0);
-            return lb <= l1.known_term && ub >= l1.known_term;
-        }
-        else if (l0.vars.size() == 1 && l1.vars.size() == 1)
-        {
-            const auto [lb, ub] = distance(l0.vars.cbegin()->first, l1.vars.cbegin()->first);
-            const auto kt = l0.known_term - l1.known_term;
-            return lb + kt <= 0 && ub + kt >= 0;
-        }
-        else
-            throw std::invalid_argument("not a valid comparison between real difference logic expressions..");
+        const lin diff = l0 - l1;
+        if (diff.vars.size() > 2 || (diff.vars.size() == 2 && diff.vars.cbegin()->second != -diff.vars.crbegin()->second))
+            throw std::invalid_argument("not a valid comparison between difference logic expressions..");
+        const auto [lb, ub] = bounds(diff);
+        return lb <= rational::ZERO && ub >= rational::ZERO; // zero is a possible value of the difference..
     }
 
     bool rdl_theory::propagate(const lit &p) noexcept
